@@ -258,7 +258,7 @@ def encodeUNSUBACK := encodeAck 0xB0
 def encodePUBACK := encodeAck 0x40
 def encodePUBREC := encodeAck 0x50
 def encodePUBREL := encodeAck 0x62
-def encodePUBCOMP := encodeAck 0x72
+def encodePUBCOMP := encodeAck 0x70
 
 /-- `decode()` of UNSUBACK/PUBACK/PUBREC/PUBCOMP: the identifier -/
 def decodeAck (packet : Bytes) : Except Err Nat := do
